@@ -39,8 +39,8 @@ LEVEL_TEXT = ("Only the *history* part of the statement is decided: CrossHair en
 LEVEL_NOTE = ("NOT decided: concurrent parses on other threads (CrossHair has no thread model; interleavings are outside the claim), histories "
               "longer than 1 (quick) / 2 (thorough), texts outside the 11-text corpus. Every explored history runs in its own fresh interpreter "
               "(native execution; the solver only chooses the history), so explored paths cannot influence each other. Trusted: S1, S3, S4.")
-TECHNIQUE = "CrossHair-enumerated bounded parse histories compared with fresh-interpreter parses; symbolic two-call harnesses"
+TECHNIQUE = "CrossHair-enumerated bounded parse histories, long drop-and-reparse histories and other string-hash seeds compared with fresh-interpreter parses (native execution, the solver chooses the case); symbolic two-call / two-object harnesses"
 EXPLANATION = "see obligation_table; threads are outside the claim"
 BOUNDS = "histories of length <=1 (quick) / <=2 (thorough) over a 11-text corpus; 2 dispatches x 2 lines x 2 kinds"
-OUTSIDE = "thread interleavings; longer histories; other texts"
+OUTSIDE = "thread interleavings (no thread model; nothing claimed); histories beyond the listed shapes; other texts"
 ASSUMPTIONS = [S1, S3, S4, "fresh-interpreter reference parses are computed by subprocesses of the same interpreter binary"]
